@@ -202,6 +202,12 @@ class FindIdentifiers(_ast_util.NodeVisitor):
         if islambda:
             self.visit(node.body)
         else:
+            # a name bound anywhere in the body is local to all of it,
+            # including to the functions nested in it
+            bound = FindBound()
+            for n in node.body:
+                bound.visit(n)
+            self.local_ident_stack = self.local_ident_stack.union(bound.names)
             for n in node.body:
                 self.visit(n)
         self.in_function = inf
@@ -250,6 +256,42 @@ class FindIdentifiers(_ast_util.NodeVisitor):
                 )
             else:
                 self._add_declared(name.name)
+
+
+class FindBound(_ast_util.NodeVisitor):
+    """collect the names a function body binds, without entering the
+    scopes nested in it"""
+
+    def __init__(self):
+        self.names = set()
+
+    def visit_Name(self, node):
+        if isinstance(node.ctx, (_ast.Store, _ast.Del)):
+            self.names.add(node.id)
+
+    def visit_FunctionDef(self, node):
+        self.names.add(node.name)
+
+    visit_ClassDef = visit_FunctionDef
+
+    def visit_Lambda(self, node):
+        pass
+
+    visit_ListComp = visit_SetComp = visit_DictComp = visit_Lambda
+    visit_GeneratorExp = visit_Lambda
+
+    def visit_ExceptHandler(self, node):
+        if node.name is not None:
+            self.names.add(node.name)
+        self.generic_visit(node)
+
+    def visit_Import(self, node):
+        for name in node.names:
+            self.names.add(name.asname or name.name.split(".")[0])
+
+    def visit_ImportFrom(self, node):
+        for name in node.names:
+            self.names.add(name.asname or name.name)
 
 
 def _is_default_escape(node):
